@@ -1106,6 +1106,40 @@ func ruleProxyMiddleware(c *Ctx, a *serverAnchors, want map[string]bool) {
 				}
 			}
 		}
+		// … and the converse: without an override the path has established that none is configured
+		{
+			overridden := false
+			for _, e := range pr.Events[:P] {
+				if e.Kind == "call" && e.Callee != nil && e.Callee.String() == "(net/http.Header).Set" && len(e.Args) == 3 && isReqHeaderTerm(e.Args[0]) {
+					if hn, _ := e.Args[1].StrVal(); strings.EqualFold(hn, "Accept-Encoding") {
+						overridden = true
+					}
+				}
+			}
+			if !overridden {
+				noneConfigured := false
+				for _, l := range pr.Conds {
+					if l.Atom.Op != "eq" || !l.Pol || len(l.Atom.Args) != 2 {
+						continue
+					}
+					for k := 0; k < 2; k++ {
+						x, y := l.Atom.Args[k], l.Atom.Args[1-k]
+						if x.Op == "init" && x.Args[0].Op == "fa" && x.Args[0].Name == "AcceptEncoding" {
+							if sv, ok := y.StrVal(); ok && sv == "" {
+								noneConfigured = true
+							}
+						}
+						// len(cfg) == 0
+						if x.Op == "len" && x.Args[0].Op == "init" && x.Args[0].Args[0].Op == "fa" && x.Args[0].Args[0].Name == "AcceptEncoding" && isZeroInt(y) {
+							noneConfigured = true
+						}
+					}
+				}
+				if !noneConfigured {
+					report("accept-encoding-override", "the request reaches the upstream with the client's Accept-Encoding although the path has not established that the upstream has none configured (the configured value must replace the client's, also when the client sent none) on "+where)
+				}
+			}
+		}
 		// proxy deadline
 		for _, l := range pr.Conds {
 			if l.Atom.Op == "eq" && l.Atom.Args[0].Op == "init" && l.Atom.Args[0].Args[0].Op == "fa" && l.Atom.Args[0].Args[0].Name == "ProxyTimeout" && !l.Pol {
